@@ -9,6 +9,8 @@ registered quick checks report?  Complements the hand-made changes under /verif/
   tools/mutsweep.py report                   summary -> /verif/seeded/sweep/summary.json (+ survivors list)
 
 Everything happens in scratch copies (/var/tmp/mutsweep, /var/tmp/mutrun); /repo is never patched."""
+import json, os as _os0
+_os0.environ.setdefault('VERIF_FROM_HEAD', '1')
 import json, os, re, subprocess, sys, concurrent.futures, threading, hashlib
 W = '/var/tmp/mutsweep'
 FILES = ['src/anycache.rs', 'src/asset.rs', 'src/cache.rs', 'src/dirs.rs', 'src/entry.rs', 'src/error.rs', 'src/key.rs',
